@@ -2,7 +2,7 @@
    Care is taken never to make Coq reduce a filter over the big tables with a VARIABLE class name (the conversion of
    two such stuck terms is exponential): the per-class statements go through the closed, pre-grouped tables. *)
 From Coq Require Import String List Bool. Import ListNotations. Open Scope string_scope.
-Require Import Registry Registryproof Attr Attrproof Gen_Registry Gen_Ctors C12defs C12tab.
+Require Import Registry Registryproof Attr Attrproof RegistrySpec Gen_Registry Gen_Ctors C12defs C12tab.
 
 Lemma model_registry_nodup : NoDup (map fst model_registry).
 Proof. unfold model_registry. destruct lxml_registrations; [apply build_nodup|constructor]. Qed.
@@ -128,3 +128,8 @@ Proof. intros doc l w w' C H. exact (access_run_consistent model_registry doc l 
 
 Lemma guards_match_reference : forall e, In e ctors -> guard_matches_reference e = true.
 Proof. exact (proj1 (forallb_forall guard_matches_reference ctors) sweep_guards_match_reference). Qed.
+
+Lemma registry_matches_reference : forall x, In x registry_reference -> reference_ok x = true.
+Proof. exact (proj1 (forallb_forall reference_ok registry_reference) sweep_registry_reference). Qed.
+Lemma every_tagged_class_dispatched : forall x, In x tagged_classes -> tagged_ok x = true.
+Proof. exact (proj1 (forallb_forall tagged_ok tagged_classes) sweep_tagged_classes). Qed.
